@@ -1604,3 +1604,24 @@ def numeric_witness(a, b, ranges, trials=6, rel=1e-8):
             if found is None:
                 found = (dict((s.name, env[s.id]) for s in syms), va, vb)
     return found if hits >= 2 else None
+
+
+def numeric_agree(a, b, ranges, trials=5, rel=1e-7):
+    """True when both forms are evaluable at every sampled point (at least three) and agree there within rel"""
+    ids = sorted(set(a.atoms(deep=True)) | set(b.atoms(deep=True)))
+    syms = [TABLE.atoms[k] for k in ids if TABLE.atoms[k].kind == 'sym' and TABLE.atoms[k].name != 'pi']
+    n = 0
+    for t in range(trials):
+        env = {}
+        for j, s in enumerate(syms):
+            lo, hi = ranges[s.name]
+            frac = ((t + 1) * 0.6180339887498949 + (j + 1) * 0.7548776662466927) % 1.0
+            env[s.id] = lo + (hi - lo) * frac
+        try:
+            va, vb = evalf(a, env), evalf(b, env)
+        except (NotEvaluable, ZeroDivisionError, OverflowError, ValueError):
+            continue
+        n += 1
+        if abs(va - vb) > rel * max(abs(va), abs(vb), 1e-30):
+            return False
+    return n >= 3
